@@ -2,6 +2,7 @@ CONSTANTS
   N = 8
   MaxTasks = 200
   G = 3
+  Stops = 2
   Dev = {}
 INIT TInit
 NEXT TNext
